@@ -104,7 +104,10 @@ def endInfo (st : Style) (b : Box) (pts : List V2) : List String × Bool × Bool
         let tie := angleTie (e - nx) (q - nx)
         let z := (if e - nx = ⟨0, 0⟩ then ["obl:zero-direction"] else []) ++ (if q - nx = ⟨0, 0⟩ then ["obl:snapped-onto-source"] else [])
         if decMid (e - nx) (q - nx) then
-          ((match rest.head? with | some _ => "obl:resnap:third-point" | none => "obl:resnap:two-points") :: z, tie, false)
+          -- a two-point edge re-snaps with `source = point`, i.e. through `__vector_snap_closest`: its atan2-based side
+          -- choice is a declared tie when the neighbour lies on a diagonal of the box (any side intersection accepted)
+          let tieC := match rest.head? with | some _ => false | none => decide (closestTie b nx ∧ nx ≠ b.center)
+          ((match rest.head? with | some _ => "obl:resnap:third-point" | none => "obl:resnap:two-points") :: z, tie || tieC, false)
         else ("obl:keep" :: z, tie, false)
     | .manhattan =>
       let axis := closestaxis (e - nx)
